@@ -63,9 +63,10 @@ def subst_value(v, k, t, memo=None):
     if isinstance(v, VObj):
         o = VObj(v.cls, v.epoch, v.label)
         memo[id(v)] = o
-        for a in ("key", "optional", "maybe_none", "layout"):
-            if hasattr(v, a):
-                setattr(o, a, subst_value(getattr(v, a), k, t, memo) if a == "key" else getattr(v, a))
+        for a, val in v.__dict__.items():
+            if a in ("cls", "fields", "epoch", "label"):
+                continue
+            setattr(o, a, _subst_attr(val, k, t, memo))
         o.fields = {f: subst_value(x, k, t, memo) for f, x in v.fields.items()}
         return o
     if isinstance(v, VList):
@@ -85,6 +86,12 @@ def subst_value(v, k, t, memo=None):
     if isinstance(v, VOpaque):
         return v
     return v
+
+
+def _subst_attr(val, k, t, memo):
+    if callable(val) and not isinstance(val, (VObj, VList)):
+        return lambda *a, val=val: subst_value(val(*a), k, t)
+    return subst_value(val, k, t, memo)
 
 
 # --------------------------------------------------------------------------------------------- iteration protocol
